@@ -42,9 +42,12 @@ ASSUMPTIONS = [
 ]
 EXPLANATION = ("Model: Model/Reveal.v (reveal_plates, mask_screen, unmask_screen, save_load, each as the constructor call the code makes, "
                "parameterised by `variant` = does the call site pass the mappings), Model/Holdout.v (split), on the shared Model/Screen.v. "
-               "Today's code corresponds to variant (0 0 0); for it ids_frozen is REFUTED in Coq and the predicate reports the renumbering "
-               "on the real code.  The positive theorems hold for the repaired variant (1 1 1). predict_stable is a corollary (embeddings are "
-               "indexed by these ids; C09 proves predictions row-wise) and is not stated separately.")
+               "The variant the current tree implements is detected from the behaviour of the real functions and reported in the extra check "
+               "`variant-detection`; the correspondence must hold for exactly that variant.  For variant (0 0 0) (no mappings passed: the code "
+               "before the repair) ids_frozen is REFUTED in Coq and the predicate reports the renumbering on the real code; the positive "
+               "theorems hold for the repaired variant (1 1 1).  predict_stable is a corollary (embeddings are indexed by these ids, "
+               "sparse_combo.py:675-713; C09 proves predictions row-wise) and is not stated separately.  train_model.main sizes the embeddings by "
+               "ExperimentSpace.from_screen(loaded screen), which is what space_n_samples / space_n_treatments of every stage are compared against.")
 
 _CAUSE = {"reveal": "reveal", "cli_reveal": "reveal", "mask": "mask", "unmask": "unmask", "saveload": "saveload", "meta_cli": "saveload",
           "setobs": "setobs"}
